@@ -23,6 +23,9 @@ import (
 
 	"github.com/relab/hotstuff"
 	"github.com/relab/hotstuff/core"
+	"github.com/relab/hotstuff/core/logging"
+	"github.com/relab/hotstuff/internal/proto/clientpb"
+	"github.com/relab/hotstuff/security/blockchain"
 	"github.com/relab/hotstuff/security/crypto"
 	"github.com/relab/hotstuff/security/crypto/keygen"
 )
@@ -184,6 +187,8 @@ type c11World struct {
 	plain *Authority // replica 1 without cache
 	cbase *c11Count  // scheme instance below replica 1's cache
 	atoms map[string]*c11Sig
+	chain *blockchain.Blockchain // holds genesis and [block]; shared by both instances
+	block *hotstuff.Block        // a view-1 block, the subject of "qc" operations
 }
 
 func c11Key(t *testing.T, name string) hotstuff.PrivateKey {
@@ -227,7 +232,10 @@ func c11NewWorld(t *testing.T, name string, n int) *c11World {
 	for _, c := range cfgs {
 		w.addReplicas(c)
 	}
-	w.plain = NewAuthority(cfgs[0], nil, w.bases[0])
+	w.chain = blockchain.New(nil, logging.New("c11"), nil) // only stored blocks are looked up: no fetches
+	w.block = hotstuff.NewBlock(hotstuff.GetGenesis().Hash(), c11GenesisQC(), &clientpb.Batch{Commands: []*clientpb.Command{}}, 1, 1)
+	w.chain.Store(w.block)
+	w.plain = NewAuthority(cfgs[0], w.chain, w.bases[0])
 	if _, isCache := w.plain.Base.(*Cache); isCache {
 		t.Fatal("c11: authority without WithCache is wrapped in a cache")
 	}
@@ -252,7 +260,7 @@ func (w *c11World) addReplicas(c *core.RuntimeConfig) {
 func (w *c11World) newCached(capacity int) (*Authority, *Cache) {
 	cfg := core.NewRuntimeConfig(1, w.keys[0], core.WithCache(uint(capacity)))
 	w.addReplicas(cfg)
-	a := NewAuthority(cfg, nil, w.cbase)
+	a := NewAuthority(cfg, w.chain, w.cbase)
 	c, ok := a.Base.(*Cache)
 	if !ok {
 		w.t.Fatal("c11: WithCache did not wrap the scheme in a Cache")
@@ -392,6 +400,37 @@ func c11DropLast(s *c11Sig) *c11Sig {
 	return r
 }
 
+// c11Repeat lists signer i's entry once more, at position pos (len = appended).
+func c11Repeat(s *c11Sig, i, pos int) *c11Sig {
+	if (s.kind != c11Ecdsa && s.kind != c11Eddsa) || i >= len(s.ids) || pos > len(s.ids) {
+		return nil
+	}
+	r := s.clone(fmt.Sprintf("repeat-entry-%d-at-%d(%s)", i, pos, s.how))
+	r.ids = append(r.ids[:pos:pos], append([]hotstuff.ID{s.ids[i]}, r.ids[pos:]...)...)
+	r.parts = append(r.parts[:pos:pos], append([][]byte{append([]byte(nil), s.parts[i]...)}, r.parts[pos:]...)...)
+	return r
+}
+
+// c11Dedup drops every entry whose signer was already listed.
+func c11Dedup(s *c11Sig) *c11Sig {
+	if s.kind != c11Ecdsa && s.kind != c11Eddsa {
+		return nil
+	}
+	r := &c11Sig{kind: s.kind, how: "dedup(" + s.how + ")"}
+	seen := map[hotstuff.ID]bool{}
+	for i, id := range s.ids {
+		if !seen[id] {
+			seen[id] = true
+			r.ids = append(r.ids, id)
+			r.parts = append(r.parts, append([]byte(nil), s.parts[i]...))
+		}
+	}
+	if len(r.ids) == len(s.ids) {
+		return nil
+	}
+	return r
+}
+
 func c11Corrupt(s *c11Sig) *c11Sig {
 	if (s.kind != c11Ecdsa && s.kind != c11Eddsa) || len(s.ids) < 1 || len(s.parts[0]) < 12 {
 		return nil
@@ -419,6 +458,9 @@ type c11Res struct {
 }
 
 var c11FailCount = map[string]int{}
+
+// c11Block is the stored block that "qc" operations certify (set per world).
+var c11Block *hotstuff.Block
 
 var c11Verdict = []string{"accept", "reject", "panic"}
 var c11GVerdict = []string{"VAccept", "VReject", "VPanic"}
@@ -488,6 +530,9 @@ func c11Run(a *Authority, o *c11Op) (res c11Res) {
 	case "tc":
 		so, _ := o.sig.obj()
 		return verdict(a.VerifyTimeoutCert(hotstuff.NewTimeoutCert(so, o.view)))
+	case "qc":
+		so, _ := o.sig.obj()
+		return verdict(a.VerifyQuorumCert(hotstuff.NewQuorumCert(so, c11Block.View(), c11Block.Hash())))
 	case "aggqc":
 		so, _ := o.sig.obj()
 		qcs := map[hotstuff.ID]hotstuff.QuorumCert{}
@@ -528,6 +573,8 @@ func (o *c11Op) desc() string {
 		return "Combine(" + strings.Join(p, ", ") + ")"
 	case "tc":
 		return fmt.Sprintf("VerifyTimeoutCert(view=%d, sig=[%s]) [%s]", o.view, o.sig.desc(), a)
+	case "qc":
+		return fmt.Sprintf("VerifyQuorumCert(stored view-1 block B, sig=[%s]) [%s]", o.sig.desc(), a)
 	case "aggqc":
 		return fmt.Sprintf("VerifyAggregateQC(view=%d, genesis QCs of %v, sig=[%s]) [%s]", o.view, c11SortedIDs(o.batch), o.sig.desc(), a)
 	}
@@ -736,6 +783,11 @@ func (q *c11Seq) do(o *c11Op) (plain, cached c11Res) {
 		if o.view != 0 && o.sig.kind != c11Nil && len(o.sig.ids) >= w.plain.config.QuorumSize() {
 			q.items = append(q.items, fmt.Sprintf("(CVerify %s %s %s, %s)", q.gsig(o.sig), c11GBytes(o.view.ToBytes()), c11GVerdict[plain.verdict], obsV()))
 		}
+	case "qc":
+		// nil and sub-quorum certificates never reach the scheme or the cache
+		if o.sig.kind != c11Nil && len(o.sig.ids) >= w.plain.config.QuorumSize() {
+			q.items = append(q.items, fmt.Sprintf("(CVerify %s %s %s, %s)", q.gsig(o.sig), c11GBytes(w.block.ToBytes()), c11GVerdict[plain.verdict], obsV()))
+		}
 	case "aggqc":
 		if o.sig.kind != c11Nil && len(o.sig.ids) >= w.plain.config.QuorumSize() {
 			q.items = append(q.items, fmt.Sprintf("(CBatch %s %s %s, %s)", q.gsig(o.sig), q.gbatch(o.effBatch()), c11GVerdict[plain.verdict], obsV()))
@@ -829,6 +881,8 @@ func (w *c11World) alphabet() []*c11Op {
 			&c11Op{op: "verify", sig: c11SwapLabels(s12), msg: m0, alter: "signer-labels"},
 			&c11Op{op: "verify", sig: c11Resplit(s12, 7), msg: m0, alter: "signature-split"},
 			&c11Op{op: "verify", sig: c11KindFlip(s12), msg: m0, alter: "scheme"},
+			&c11Op{op: "verify", sig: c11Repeat(s12, 1, 2), msg: m0, alter: "signer-repeated"},
+			&c11Op{op: "batch", sig: c11Repeat(sB, 1, 2), batch: b0, alter: "signer-repeated"},
 		)
 	}
 	return ops
@@ -958,7 +1012,7 @@ func (w *c11World) alterOp(v *verifOut, o *c11Op) *c11Op {
 	n.batch = c11CloneBatch(o.batch)
 	isBatch := o.op == "batch" || o.op == "aggqc"
 	for try := 0; try < 12; try++ {
-		switch v.rng.Intn(16) {
+		switch v.rng.Intn(18) {
 		case 0: // message
 			if o.op == "verify" {
 				n.msg = c11Msgs[v.rng.Intn(len(c11Msgs))]
@@ -1101,6 +1155,20 @@ func (w *c11World) alterOp(v *verifOut, o *c11Op) *c11Op {
 				n.alter = "batch-missing-entry"
 				return &n
 			}
+		case 16: // one signer's entry listed once more (appended or inserted); batch unchanged
+			if len(o.sig.ids) >= 1 {
+				if s := c11Repeat(o.sig, v.rng.Intn(len(o.sig.ids)), v.rng.Intn(len(o.sig.ids)+1)); s != nil {
+					n.sig = s
+					n.alter = "signer-repeated"
+					return &n
+				}
+			}
+		case 17: // a list with a repeated signer presented without the repeat
+			if s := c11Dedup(o.sig); s != nil {
+				n.sig = s
+				n.alter = "signer-deduplicated"
+				return &n
+			}
 		case 11: // verification kind
 			if o.op == "verify" && o.sig.kind != c11Nil && len(o.sig.ids) >= 1 {
 				n.op = "batch"
@@ -1237,6 +1305,56 @@ func (w *c11World) boundary(v *verifOut) {
 				{op: "aggqc", sig: sg, batch: ids(1, 2, 3), view: 7, alter: "same"},
 			}
 		}(),
+		// a sub-quorum signature {1,2} is remembered (vote / timeout view signature), then presented
+		// as a certificate with signer 2 listed twice: three entries pass the quorum-size check
+		func() []*c11Op {
+			if kind == c11Bls {
+				return nil
+			}
+			bb := w.block.ToBytes()
+			s2, v2 := w.multi(bb, 1, 2), w.multi(hotstuff.View(5).ToBytes(), 1, 2)
+			return []*c11Op{
+				{op: "verify", sig: s2, msg: bb},
+				{op: "qc", sig: s2, alter: "same"},
+				{op: "qc", sig: c11Repeat(s2, 1, 2), alter: "signer-repeated"},
+				{op: "qc", sig: c11Repeat(s2, 0, 1), alter: "signer-repeated"},
+				{op: "verify", sig: v2, msg: hotstuff.View(5).ToBytes()},
+				{op: "tc", sig: c11Repeat(v2, 1, 2), view: 5, alter: "signer-repeated"},
+				{op: "tc", sig: c11Repeat(c11Repeat(v2, 1, 2), 0, 0), view: 5, alter: "signer-repeated"},
+			}
+		}(),
+		// the dual: the list with the repeat first (rejected), then de-duplicated, then a genuine quorum
+		func() []*c11Op {
+			if kind == c11Bls {
+				return nil
+			}
+			bb := w.block.ToBytes()
+			s3 := w.multi(bb, 1, 2, 3)
+			rep := c11Repeat(w.multi(bb, 1, 2), 1, 2)
+			return []*c11Op{
+				{op: "qc", sig: rep},
+				{op: "verify", sig: rep, msg: bb, alter: "same"},
+				{op: "verify", sig: c11Dedup(rep), msg: bb, alter: "signer-deduplicated"},
+				{op: "qc", sig: rep, alter: "signer-repeated"},
+				{op: "qc", sig: s3},
+				{op: "qc", sig: c11Repeat(s3, 2, 3), alter: "signer-repeated"},
+				{op: "qc", sig: s3, alter: "same"},
+			}
+		}(),
+		// batch verification with a repeated signer after the genuine one was remembered
+		func() []*c11Op {
+			if kind == c11Bls {
+				return nil
+			}
+			b3 := map[hotstuff.ID][]byte{1: []byte("ab"), 2: []byte("c"), 3: []byte("a")}
+			sg := w.batchSig(b3)
+			return []*c11Op{
+				{op: "batch", sig: sg, batch: b3},
+				{op: "batch", sig: c11Repeat(sg, 2, 3), batch: b3, alter: "signer-repeated"},
+				{op: "batch", sig: c11Repeat(sg, 0, 1), batch: b3, alter: "signer-repeated"},
+				{op: "batch", sig: sg, batch: b3, alter: "same"},
+			}
+		}(),
 		{{op: "tc", sig: w.multi(hotstuff.View(0).ToBytes(), 1, 2, 3), view: 0}, {op: "tc", sig: w.multi(hotstuff.View(5).ToBytes(), 1, 2, 3), view: 5}, {op: "tc", sig: w.multi(hotstuff.View(5).ToBytes(), 1, 2, 3), view: 6, alter: "view"}, {op: "tc", sig: w.multi(hotstuff.View(5).ToBytes(), 1, 2, 3), view: 1 << 63, alter: "view"}},
 		{{op: "combine", sigs: []*c11Sig{w.atom(1, m0)}}, {op: "combine", sigs: nil}, {op: "combine", sigs: []*c11Sig{w.atom(1, m0), w.atom(1, m0)}}, {op: "combine", sigs: []*c11Sig{w.atom(1, m0), w.atom(2, []byte("c"))}}},
 	}
@@ -1261,6 +1379,9 @@ func (w *c11World) boundary(v *verifOut) {
 		}
 	}
 	for _, ops := range seqs {
+		if len(ops) == 0 {
+			continue
+		}
 		for _, c := range []int{1, 2, 8} {
 			q := c11NewSeq(w, v, "bnd", c)
 			for _, o := range ops {
@@ -1297,6 +1418,7 @@ func TestVerifC11(t *testing.T) {
 	search := os.Getenv("VERIF_SEARCH") != ""
 	for _, name := range []string{crypto.NameEDDSA, crypto.NameECDSA, crypto.NameBLS12} {
 		w := c11NewWorld(t, name, 4)
+		c11Block = w.block
 		w.boundary(v)
 		switch name {
 		case crypto.NameBLS12:
